@@ -28,4 +28,21 @@ def correspondence(ctx):
 def oracle(ctx, budget=1, replay=None, hints=None):
     kw, styles = _kw()
     acc = (lambda p: p['style'] in styles) if styles else None
-    return FL.oracle(ctx, PID, [O.check_C05], kw, 150 * budget, accept=acc, replay=replay)
+    return FL.oracle(ctx, PID, [O.check_C05], kw, 150 * budget, accept=acc, replay=replay, extra_progs=designed())
+
+
+def designed():
+    """matched 0.8 mm cycles in which the recovery is skipped inside a region and the file resets E there (G92 E0 at a layer change), so the owed
+    recovery is made up at a logical E equal to the nominal retraction length: the made-up G92 value is a binary64 residue (~1e-16)"""
+    from fractions import Fraction as F
+    import genprog
+    R = [('rect', 'a', F(45), F(45), F(60), F(60))]
+    out = []
+    for (hi, lo) in (('1.2', '0.4'), ('1.1', '0.4'), ('2.3', '1.5')):
+        d = float(hi) - float(lo)
+        nominal = '%.1f' % d
+        lines = ['G28', 'G1 X10 Y10 F3000', 'G1 X20 Y10 E%s F1200' % hi, 'G1 E%s F2400' % lo, 'G1 X50 Y50 F3000', 'G1 E%s F2400' % hi, 'G92 E0',
+                 'G1 X55 Y55 E%s F1200' % nominal, 'G1 X10 Y20 F3000', 'G1 X20 Y20 E%s F1200' % hi, 'G1 E%s F2400' % lo, 'G1 X30 Y20 F3000', 'G1 E%s F2400' % hi,
+                 'G1 X30 Y30 E%.1f F1200' % (float(hi) + 0.4)]
+        out.append(dict(g90e=False, enter=None, exit=None, ext=dict(genprog.DEFAULT_EXT), regions=R, events=[('cmd', l) for l in lines], style='eonly', alen='1'))
+    return out
